@@ -308,6 +308,7 @@ pub fn generate_soak(seed: u64) -> RunSpec {
         fresh_threads: rng.chance(50, 100),
         late: None,
         jumps: vec![],
+        exit_list_first: false,
     }
 }
 
@@ -607,6 +608,24 @@ pub fn generate(seed: u64, flavor: &str) -> RunSpec {
                     }
                 }
                 98 => Op::DebugFmt { slot },
+                99 if rng.chance(50, 100) => {
+                    let input = pick_input(&mut rng, fam, &fams);
+                    if rng.chance(50, 100) {
+                        Op::AtExitCall {
+                            slot,
+                            method: Method::IsMatch,
+                            input,
+                            repl: String::new(),
+                        }
+                    } else {
+                        Op::AtExitCall {
+                            slot,
+                            method: Method::ReplaceAll,
+                            input,
+                            repl: pick_repl(&mut rng, fam),
+                        }
+                    }
+                }
                 99 => {
                     let input = pick_input(&mut rng, fam, &fams);
                     if rng.chance(50, 100) {
@@ -788,5 +807,6 @@ pub fn generate(seed: u64, flavor: &str) -> RunSpec {
         fresh_threads,
         late,
         jumps,
+        exit_list_first: rng.chance(50, 100),
     }
 }
